@@ -6,6 +6,7 @@ The dump is regenerated whenever the content hash of the tree changes; the hash-
 import hashlib
 import os
 import pickle
+import re
 import shutil
 import subprocess
 import sys
@@ -95,6 +96,62 @@ def dump_mir(profile, repo=None):
         shutil.rmtree(scratch, ignore_errors=True)
 
 
+def dump_expanded(repo=None):
+    """Macro-expanded source of the current tree (`-Zunpretty=expanded`).  Only the declaration order of the local
+    `enum Jump {..}` tables that the logos derive puts inside its generated functions is taken from it: MIR prints
+    enum variants by name and the discriminant order of a macro-generated enum is nowhere in src/."""
+    repo = repo or REPO
+    th = tree_hash(repo)
+    cdir = os.path.join(CACHE, "mir", th)
+    path = os.path.join(cdir, "expanded.rs")
+    if os.path.exists(path) and os.path.getsize(path) > 1000:
+        return open(path).read()
+    os.makedirs(cdir, exist_ok=True)
+    scratch = make_scratch(repo, "exp")
+    try:
+        env = dict(os.environ)
+        env["CARGO_NET_OFFLINE"] = "true"
+        env["CARGO_TARGET_DIR"] = os.path.join(CACHE, "target-mir-dev")
+        env.pop("RUSTFLAGS", None)
+        cmd = ["cargo", "+" + NIGHTLY, "rustc", "--offline", "--lib", "--", "-Zunpretty=expanded"]
+        p = subprocess.run(cmd, cwd=scratch, env=env, stdout=subprocess.PIPE, stderr=subprocess.PIPE, text=True)
+        if p.returncode != 0 or len(p.stdout) < 1000:
+            sys.stderr.write(p.stderr[-4000:])
+            raise RuntimeError("macro expansion failed (rc=%d)" % p.returncode)
+        tmp = path + ".tmp%d" % os.getpid()
+        with open(tmp, "w") as f:
+            f.write(p.stdout)
+        os.replace(tmp, path)
+        return p.stdout
+    finally:
+        shutil.rmtree(scratch, ignore_errors=True)
+
+
+_JUMP_RX = re.compile(r"\b(goto\w+)::Jump\b")
+
+
+def rename_jump_enums(text):
+    """`goto15::Jump` -> `Jump__goto15`: every generated function has its own local enum called Jump."""
+    return _JUMP_RX.sub(lambda m_: "Jump__" + m_.group(1), text)
+
+
+def jump_enums(expanded):
+    """{'Jump__goto15': ['__', 'J5', ...]} from the expanded source (declaration order = discriminant order)."""
+    out = {}
+    last_fn = None
+    for m_ in re.finditer(r"\bfn (goto\w+)\s*<|\benum Jump \{([^}]*)\}", expanded):
+        if m_.group(1):
+            last_fn = m_.group(1)
+        elif last_fn is not None:
+            vs = [v.strip() for v in m_.group(2).split(",") if v.strip()]
+            key = "Jump__" + last_fn
+            if key in out and out[key] != vs:
+                out[key] = None      # two generated functions of the same name with different tables: unusable
+            else:
+                out[key] = vs
+    return {k: v for k, v in out.items() if v}
+
+
 class Mir:
     def __init__(self, profile, funcs, enums, tree, dump_s, structs=None):
         self.structs = structs or {}
@@ -146,7 +203,7 @@ def load(profile, repo=None):
         except Exception:
             funcs = None
     if funcs is None:
-        funcs = mirparse.parse_dump(text)
+        funcs = mirparse.parse_dump(rename_jump_enums(text))
         try:
             with open(ppath + ".tmp%d" % os.getpid(), "wb") as f:
                 pickle.dump((_parser_version(), funcs), f)
@@ -158,6 +215,8 @@ def load(profile, repo=None):
         if p.endswith(".rs"):
             srcs.append(open(p).read())
     enums = sym.parse_enums_from_source(srcs)
+    if "::Jump" in text:
+        enums.update(jump_enums(dump_expanded(repo)))
     m = Mir(profile, funcs, enums, th, secs, sym.parse_structs_from_source(srcs))
     m.repo = repo
     _loaded[key] = m
@@ -165,5 +224,5 @@ def load(profile, repo=None):
 
 
 def _parser_version():
-    h = hashlib.sha256(open(mirparse.__file__, "rb").read()).hexdigest()[:12]
+    h = hashlib.sha256(open(mirparse.__file__, "rb").read() + open(__file__, "rb").read()).hexdigest()[:12]
     return h
